@@ -75,6 +75,8 @@ let run_main path =
 (* ---------- generator ---------- *)
 let tmo_mode = ref false
 let hold_mode = ref false
+(* class mode: workflows and histories of the class for which C01 is proved (model/Class.v) *)
+let class_mode = ref false
 let counter = ref 0
 let fresh () = incr counter; nat_of_int !counter
 let vnum n = VNum (z_of_int n)
@@ -159,12 +161,21 @@ and gen_step depth simple : step =
     Step (id, sif, None, ins, outs, gen_setup (), [], List.init (rnd 4) (fun _ -> gen_act depth),
           (if depth >= 0 && rnd 3 = 0 then gen_catches (depth-1) else []),
           (if depth >= 0 && (if !tmo_mode then rnd 2 = 0 else rnd 5 = 0) then gen_timeouts (depth-1) else []))
+let gen_class_workflow () : workflow =
+  counter := 0;
+  let irq = ASpec (UIrq, O, true, None, []) in
+  let act () = let id = fresh () in
+    Act (id, None, irq, (if rnd 4 = 0 then rvars [3;4;7] 50 else []), (if rnd 3 = 0 then (let l = rnulls [1;3;4;5] 40 in if l = [] then [(nat_of_int 3, VNull)] else l) else []), None, [], [], []) in
+  let step () = let id = fresh () in
+    Step (id, None, None, (if rnd 4 = 0 then rvars [3;4;5;7] 40 else []), (if rnd 4 = 0 then rnulls [3;4;5;6] 40 else []), [], [], List.init (rnd 4) (fun _ -> act ()), [], []) in
+  { w_id = O; w_steps = List.init (if rnd 8 = 0 then 0 else 1 + rnd 3) (fun _ -> step ()); w_ins = rvars [1;3;4;5] 70; w_outs = rnulls [1;3;4;6] 60; w_setup = [] }
 let gen_workflow () : workflow =
+  if !class_mode then gen_class_workflow () else begin
   counter := 0;
   let setup = gen_setup () in
   let ins = rvars [1;3;4;5] 70 in
   let outs = rnulls [1;3;4;6] 60 in
-  { w_id = O; w_steps = List.init (1 + rnd 3) (fun _ -> gen_step 2 false); w_ins = ins; w_outs = outs; w_setup = setup }
+  { w_id = O; w_steps = List.init (1 + rnd 3) (fun _ -> gen_step 2 false); w_ins = ins; w_outs = outs; w_setup = setup } end
 
 let is_term s = is_completed s
 let maxq = ref 0
@@ -190,6 +201,7 @@ let gen_main n seed0 maxops out =
     (match build_tree fuel_tree wf with
      | None -> bump "build-failed"
      | Some ns ->
+       if !class_mode && not (frag_nodes ns) then bump "class-miss" else
        let has_tmo = List.exists (fun (nd : node) -> nd.n_timeouts <> []) ns in
        let e = ref (drain_track (start ns (z_of_int clock0))) in
        let ops = ref [] in
@@ -212,6 +224,7 @@ let gen_main n seed0 maxops out =
            e := drain_track (do_tick !e (z_of_int adv))
          end else begin
            let rand_action tgt =
+             if !class_mode then (match rnd 10 with x when x < 6 -> ANext, "next", [] | x when x < 8 -> ASubmit, "submit", [] | _ -> ARemove, "remove", []) else
              match rnd 100 with
              | x when x < 36 -> ANext, "next", []
              | x when x < 42 -> ASubmit, "submit", []
@@ -228,6 +241,15 @@ let gen_main n seed0 maxops out =
              | x when x < 92 -> ABack None, "back", []
              | _ -> ACancel, "cancel", [] in
            let target, (act, aname, aopts) =
+             if !class_mode then begin
+               let openacts = idx (fun i -> kindof i = KAct && not (is_term (List.nth sts i))) in
+               if r < 60 && irqs <> [] then (let t = pick irqs in t, rand_action t)
+               else if r < 75 && openacts <> [] then (let t = pick openacts in t, rand_action t)
+               else if r < 85 && termacts <> [] then (let t = pick termacts in t, rand_action t)
+               else if r < 92 && nonacts <> [] then (let t = pick nonacts in t, rand_action t)
+               else if r < 95 || irqs = [] then (nt + 3, rand_action 0)
+               else (let t = pick irqs in t, rand_action t)
+             end else
              if r < 70 && irqs <> [] then (let t = pick irqs in t, rand_action t)
              else if r < 84 && termacts <> [] then (let t = pick termacts in t, (if rnd 3 = 0 then (ACancel, "cancel", []) else rand_action t))
              else if r < 90 && nonacts <> [] then
@@ -257,7 +279,7 @@ let gen_main n seed0 maxops out =
            if twice then begin
              ops := item true :: !ops; incr nops; bump "repeated";
              e := do_action !e (nat_of_int target) act optv
-           end else if hold && rnd 3 = 0 then begin
+           end else if hold && not !class_mode && rnd 3 = 0 then begin
              (* ... or taken back at once: cancel on the same act while what the action scheduled is still queued *)
              ops := Json.Obj [("t", Json.Int target); ("a", Json.Str "cancel"); ("o", Json.Obj []); ("hold", Json.Bool true)] :: !ops;
              incr nops; bump "cancel"; bump "held";
@@ -273,6 +295,7 @@ let gen_main n seed0 maxops out =
        (* the scheduler queue is a bounded channel (100): beyond it the pop order is not FIFO *)
        if !maxq > 60 || List.length (!e).tasks > 250 || (!e).oof then bump "discarded-too-large" else begin
        incr k;
+       if !class_mode then bump "c01-class";
        bump (Printf.sprintf "tasks<=%d" (let nt = List.length (!e).tasks in if nt <= 5 then 5 else if nt <= 15 then 15 else if nt <= 40 then 40 else 1000));
        Printf.fprintf oc "%s\n" (Json.show (Json.Obj [("id", Json.Str (Printf.sprintf "g%d" !k)); ("wf", jworkflow wf); ("ops", Json.Arr (List.rev !ops))])) end)
   done;
@@ -360,5 +383,5 @@ let () =
   match Array.to_list Sys.argv with
   | _ :: "run" :: path :: _ -> run_main path
   | _ :: "oracle" :: cases :: trace :: _ -> oracle_main cases trace
-  | _ :: "gen" :: n :: s :: m :: out :: rest -> tmo_mode := List.mem "tmo" rest; hold_mode := List.mem "hold" rest; gen_main (int_of_string n) (int_of_string s) (int_of_string m) out
+  | _ :: "gen" :: n :: s :: m :: out :: rest -> tmo_mode := List.mem "tmo" rest; hold_mode := List.mem "hold" rest; class_mode := List.mem "cls" rest; gen_main (int_of_string n) (int_of_string s) (int_of_string m) out
   | _ -> prerr_endline "usage: driver_engine run <cases.jsonl> | gen <n> <seed> <maxops> <out.jsonl>"; exit 2
